@@ -248,6 +248,13 @@ int main(int argc, char **argv) {
       size_t r = gd_putdata64(D, tok[1], ff, fs, 0, n, T[ti].t, buf);
       printf("put n=%zu e=%d", r, gd_error(D));
       free(buf); tail();
+    } else if (!strcmp(op, "getenc")) {
+      unsigned long e = gd_encoding(D, nt >= 2 ? atoi(tok[1]) : 0);
+      const char *n = e == GD_UNENCODED ? "none" : e == GD_TEXT_ENCODED ? "text" : e == GD_SIE_ENCODED ? "sie" :
+        e == GD_GZIP_ENCODED ? "gzip" : e == GD_BZIP2_ENCODED ? "bzip2" : e == GD_LZMA_ENCODED ? "lzma" :
+        e == GD_SLIM_ENCODED ? "slim" : e == GD_ZZIP_ENCODED ? "zzip" : e == GD_ZZSLIM_ENCODED ? "zzslim" :
+        e == GD_FLAC_ENCODED ? "flac" : e == GD_AUTO_ENCODED ? "auto" : "unsupported";
+      printf("getenc %s e=%d", n, gd_error(D)); tail();
     } else if (!strcmp(op, "eof") && nt >= 2) {
       long long r = gd_eof64(D, tok[1]);
       printf("eof %lld e=%d", r, gd_error(D)); tail();
